@@ -1335,7 +1335,7 @@ func (k msgServer) MsgWithdrawStableMint(c context.Context, msg *types.MsgWithdr
 
 	_, tokenOutAmount, err := k.GetAmountOfOtherToken(ctx, assetOutData.Id, sdk.OneDec(), msg.Amount, assetInData.Id, sdk.OneDec())
 	if err != nil {
-		return nil, nil
+		return nil, err
 	}
 
 	// stableAmountIn := stableVault.AmountIn.Sub(msg.Amount)
